@@ -47,10 +47,12 @@ def snapshot(obj, *, skip=(), _depth=0, _seen=None):
         return ("set",) + tuple(sorted(repr(x) for x in obj))
     mod = type(obj).__module__ or ""
     if mod.startswith("space_packet_parser"):
-        key = id(obj)
-        if key in _seen:
-            return ("ref", type(obj).__name__, getattr(obj, "name", None))
-        _seen[key] = True
+        # named, shared entities (a parameter used by several containers, a nested container) are expanded once
+        if type(obj).__name__ in ("Parameter", "SequenceContainer") or type(obj).__name__.endswith("ParameterType"):
+            key = id(obj)
+            if key in _seen:
+                return ("ref", type(obj).__name__, getattr(obj, "name", None))
+            _seen[key] = True
         if dataclasses.is_dataclass(obj):
             attrs = {f.name: getattr(obj, f.name) for f in dataclasses.fields(obj)}
         else:
